@@ -95,6 +95,13 @@ class C10(Prop):
         errs = [e for e in obs.get('loop_errors', ()) if 'never retrieved' not in e]
         if errs:
             return 'an exception escaped into the event loop: ' + errs[0][:200]
+        je = obs.get('join_end')
+        if je and je.get('joined') and not je.get('joiner_cancelled') and je.get('undone'):
+            snap = obs['trace'][je['at'] - 1][1] or {}
+            never = [t for t in je['undone'] if t not in snap.get('cancelreq', [])]
+            if never:
+                return (f'join stopped (joined is set) while members {never} were still running and had not even been sent a '
+                        'cancellation: on stopping, all members still running are cancelled')
         if obs.get('refused_during_join'):
             return ('spawn() / add_task() was refused ("task group terminated") while join() was still cancelling and waiting for '
                     f'members: members added during join are members (refused: {obs["refused_during_join"]})')
